@@ -10,6 +10,7 @@ All statements are for trees of any size and depth.
 -/
 import RefurbVerif.Lemmas.StringifyEq
 import RefurbVerif.Lemmas.Templates
+import RefurbVerif.Generated.Templates
 
 namespace RefurbVerif.C02
 open RefurbVerif.Sfy
@@ -262,5 +263,368 @@ example : meetsB ⟨0, 16, true, false⟩ (.op .add na nb) = false := by
 example : wf (.op .mul (.op .add na nb) nc) = true ∧ safe (.op .mul (.op .add na nb) nc) = false :=
   ⟨by simp [wf, na, nb, nc, isName, isIdent, isIdentStart, keywords],
    by simp [safe, na, nb, nc, BinOp.lhs, BinOp.rhs, BinOp.prec, Node.prec]⟩
+
+/-! ## The messages of the checks, regenerated from their source (Generated/Templates.lean)
+
+`genTable` lists, per check, every back-quoted fragment of every message the check can build, as read off the
+check's current source by harness/extract_c02.py (`stringify(…)` holes and raw holes, the fragment parsed with names
+in the holes).  Everything below is re-checked against that table on every run: a check that gains a message, or
+whose message moves an operand into a tighter position, breaks an obligation here.  The `decide`s evaluate the
+structural twins `pr2`/`reqs2`/`wf2` (Lemmas/Templates.lean), proved equal to the model's `pr`/`reqs`/`wf`. -/
+
+open RefurbVerif.Generated
+
+/-- `g` is a fragment of a message of the check with code `code` in the regenerated table -/
+def InTable (code : Nat) (g : GenFrag) : Prop := ∃ c ∈ genTable, c.code = code ∧ g ∈ c.frags
+
+/-- the fragment a row of the regenerated table stands for -/
+abbrev fragOf (g : GenFrag) : Option Frag := g.frag
+
+/-- **The hand-written template table agrees with the source of the checks.** For every (check, role) the committed
+    tables (`templates` of the model and `templatesMore`) classify: each message the check can build today is in the
+    table with the same hole levels, and each table entry is still a message of the check. A new message variant, a
+    changed operator, an operand moved next to `.attr`: this fails (`decide` over the regenerated table). -/
+theorem gen_agrees_committed : genInCommitted = true ∧ committedInGen = true ∧ committedChecksExist = true := by
+  decide +kernel
+
+/-- the first half, unfolded for one regenerated fragment, in terms of the model's `pr` and `reqs` -/
+theorem gen_fragment_classified (c : GenCheck) (hc : c ∈ genTable) (g : GenFrag) (hg : g ∈ c.frags) (s : Node)
+    (hs : comparableShape g = some s)
+    (hk : ∃ t ∈ committed, codeOf t.check = c.code ∧ roleOf t.role = g.role) :
+    ∃ t ∈ committed, codeOf t.check = c.code ∧ roleOf t.role = g.role ∧ canonForm t.shape = canonForm s := by
+  have h := List.all_eq_true.mp (List.all_eq_true.mp gen_agrees_committed.1 c hc) g hg
+  obtain ⟨t0, ht0, hc0, hr0⟩ := hk
+  have hany : (committedOf c.code).any (fun t => t.1 == g.role) = true := by
+    simp only [committedOf, List.any_map, List.any_filter, List.any_eq_true]
+    exact ⟨t0, ht0, by simp [hc0, hr0]⟩
+  simp only [hany, hs, Bool.not_true, Bool.false_or, List.any_eq_true] at h
+  obtain ⟨⟨r, cf⟩, hmem, hh⟩ := h
+  simp only [committedOf, List.mem_map, List.mem_filter] at hmem
+  obtain ⟨t, ⟨ht, hcode⟩, heq⟩ := hmem
+  simp only [Bool.and_eq_true, beq_iff_eq, decide_eq_true_eq] at hh hcode
+  have h1 : roleOf t.role = r := (Prod.mk.inj heq).1
+  have h2 : canonForm2 t.shape = cf := (Prod.mk.inj heq).2
+  exact ⟨t, ht, hcode, by rw [h1]; exact hh.1, by rw [← canonForm2_eq, ← canonForm2_eq, h2]; exact hh.2⟩
+
+/-- the committed classification of EVERY check (hand-reviewed; `bin/check` reports the regenerated value where it
+    differs): per check its code, the number of distinct messages and, per distinct fragment class, role, form and
+    for each hole occurrence (filled by `stringify`?, level its position demands, not-a-bare-integer,
+    no-leading-brace). Level 99: the position is not modelled (statement fragments, holes inside names or literals,
+    generator expressions). -/
+def classified : List (Nat × Nat × List FragClass) := [
+-- BEGIN classified (one check per line; harness/props/c02.py reads this block)
+  (100, 1, [(.old, .expr, [(true, 1, false, false)]), (.new, .expr, [(true, 0, false, false), (false, 0, false, false)])]),
+  (101, 5, [(.old, .unmodelled, []), (.new, .assign, [])]),
+  (102, 2, [(.old, .unmodelled, [(false, 99, false, false)]), (.new, .unmodelled, [(false, 99, false, false)])]),
+  (103, 2, [(.old, .unmodelled, []), (.new, .expr, [])]),
+  (104, 1, [(.old, .expr, [(false, 16, false, false)]), (.new, .expr, [])]),
+  (105, 1, [(.old, .expr, []), (.new, .expr, [])]),
+  (106, 16, [(.old, .expr, [(false, 13, false, false)]), (.new, .expr, []), (.new, .expr, [(false, 0, false, false)]), (.old, .unmodelled, [(false, 99, false, false)]), (.old, .expr, [(false, 12, false, false)]), (.old, .expr, [(false, 0, false, false)])]),
+  (107, 4, [(.old, .unmodelled, [(false, 99, false, false)]), (.new, .unmodelled, [(false, 99, false, false)]), (.old, .unmodelled, []), (.new, .unmodelled, [])]),
+  (108, 1, [(.old, .expr, [(false, 7, false, false), (false, 7, false, false), (false, 7, false, false), (false, 7, false, false)]), (.new, .expr, [(false, 7, false, false), (false, 7, false, false)])]),
+  (109, 2, [(.old, .inTail, []), (.new, .inTail, []), (.old, .notInTail, []), (.new, .notInTail, [])]),
+  (110, 1, [(.old, .expr, [(true, 3, false, false), (true, 3, false, false), (true, 1, false, false)]), (.new, .expr, [(true, 4, false, false), (true, 3, false, false)])]),
+  (111, 11, [(.old, .expr, [(true, 1, false, false)]), (.new, .expr, [(true, 1, false, false)]), (.new, .expr, []), (.new, .expr, [(false, 1, false, false)])]),
+  (112, 9, [(.old, .expr, [(false, 16, false, false)]), (.new, .expr, [])]),
+  (113, 1, [(.old, .unmodelled, [(true, 99, false, false)]), (.new, .expr, [(true, 16, true, false)])]),
+  (114, 1, [(.old, .expr, []), (.new, .expr, [])]),
+  (115, 2, [(.old, .expr, [(true, 1, false, false)]), (.new, .expr, [(true, 5, false, false)]), (.new, .expr, [(true, 1, false, false)])]),
+  (116, 3, [(.old, .expr, [(true, 1, false, false)]), (.new, .expr, [(true, 3, false, true)])]),
+  (117, 4, [(.old, .expr, [(true, 0, false, false)]), (.new, .expr, [(true, 16, true, false)]), (.old, .expr, [(true, 0, false, false), (true, 0, false, false)]), (.new, .expr, [(true, 16, true, false), (true, 0, false, false)])]),
+  (118, 30, [(.old, .expr, [(true, 1, false, false)]), (.new, .unmodelled, [(false, 99, false, false)]), (.new, .expr, []), (.new, .expr, [(false, 0, false, false)]), (.new, .expr, [(true, 0, false, false)]), (.new, .expr, [(false, 1, false, false)])]),
+  (119, 7, [(.old, .unmodelled, [(false, 99, false, false), (true, 99, false, false)]), (.new, .unmodelled, [(true, 99, false, false)])]),
+  (120, 1, []),
+  (121, 2, [(.old, .expr, [(false, 16, false, false), (false, 16, false, false)]), (.new, .expr, [(false, 16, false, false)])]),
+  (122, 2, [(.old, .expr, [(true, 1, false, false)]), (.new, .unmodelled, [(true, 99, false, false), (true, 99, false, false), (true, 99, false, false), (true, 99, false, false)]), (.new, .expr, [(true, 16, true, false), (true, 0, false, false)])]),
+  (123, 2, [(.old, .expr, [(false, 16, false, false), (true, 0, false, false)]), (.new, .expr, [(true, 16, true, false)]), (.new, .expr, [(true, 1, false, false)])]),
+  (124, 2, [(.old, .expr, [(false, 7, false, false), (false, 7, false, false), (false, 7, false, false), (false, 7, false, false)]), (.new, .expr, [])]),
+  (125, 1, []),
+  (126, 2, [(.old, .unmodelled, []), (.new, .unmodelled, [])]),
+  (127, 1, []),
+  (128, 1, []),
+  (129, 1, [(.old, .expr, [(true, 16, true, false)]), (.new, .expr, [(true, 1, false, false)])]),
+  (130, 2, [(.old, .inTail, [(true, 7, false, false)]), (.new, .inTail, [(true, 7, false, false)]), (.old, .notInTail, [(true, 7, false, false)]), (.new, .notInTail, [(true, 7, false, false)])]),
+  (131, 1, [(.old, .expr, [(true, 1, false, false)]), (.new, .expr, [(true, 16, true, false)])]),
+  (132, 1, [(.old, .expr, [(true, 1, false, false)]), (.new, .expr, [(true, 16, true, false), (true, 0, false, false)])]),
+  (133, 1, []),
+  (134, 2, [(.old, .unmodelled, []), (.new, .unmodelled, [])]),
+  (135, 2, [(.new, .forIn, [(true, 16, false, false), (true, 16, true, false)]), (.new, .forIn, [(true, 16, false, false), (true, 1, false, false)])]),
+  (136, 2, [(.old, .unparsed, [(false, 99, false, false)]), (.new, .expr, [(false, 16, false, false)])]),
+  (137, 25, [(.old, .expr, [(false, 16, false, false)]), (.new, .expr, [])]),
+  (138, 1, []),
+  (139, 24, [(.old, .expr, []), (.new, .expr, [(false, 1, false, false)])]),
+  (140, 1, [(.old, .expr, [(false, 1, false, false)]), (.new, .expr, [(false, 1, false, false)])]),
+  (141, 2, [(.old, .expr, []), (.new, .expr, [])]),
+  (142, 4, [(.old, .unmodelled, [(true, 99, false, false), (true, 99, false, false), (true, 99, false, false)]), (.new, .unmodelled, [(true, 99, false, false), (true, 99, false, false), (true, 99, false, false)]), (.old, .expr, [(true, 1, false, false)]), (.new, .expr, [(true, 16, true, false), (true, 0, false, false)])]),
+  (143, 1, [(.old, .expr, [(true, 4, false, false), (true, 3, false, false)]), (.new, .expr, [(true, 1, false, false)])]),
+  (144, 2, [(.old, .unmodelled, [(false, 99, false, false)]), (.new, .expr, [])]),
+  (145, 1, [(.old, .expr, [(true, 16, false, false)]), (.new, .expr, [(true, 16, true, false)])]),
+  (146, 8, [(.old, .expr, [(false, 16, false, false)]), (.new, .expr, [])]),
+  (147, 2, [(.old, .expr, []), (.new, .expr, []), (.old, .expr, [(false, 0, false, false)]), (.new, .unparsed, [(false, 99, false, false), (false, 99, false, false)])]),
+  (148, 2, [(.new, .forIn, [(true, 16, false, false), (true, 1, false, false)]), (.new, .forIn, [(true, 16, false, false), (true, 0, false, false)])]),
+  (149, 16, [(.old, .expr, [(true, 7, false, false), (false, 7, false, false)]), (.new, .expr, [(true, 5, false, false)]), (.old, .expr, [(false, 7, false, false), (true, 7, false, false)]), (.new, .expr, [(true, 1, false, false)])]),
+  (150, 8, [(.old, .expr, [(false, 16, false, false)]), (.new, .expr, []), (.new, .expr, [(false, 0, false, false)])]),
+  (151, 2, [(.old, .unmodelled, [(false, 99, false, false)]), (.new, .expr, [])]),
+  (152, 1, [(.old, .expr, [(false, 1, false, false)]), (.new, .unmodelled, [(false, 99, false, false)])]),
+  (153, 3, [(.old, .expr, [(true, 16, false, false)]), (.new, .expr, []), (.old, .expr, [(true, 16, false, false), (true, 0, false, false)])]),
+  (154, 4, [(.old, .unmodelled, []), (.new, .unmodelled, [])]),
+  (155, 10, [(.old, .expr, [(false, 16, false, false)]), (.new, .expr, [])]),
+  (156, 1, [(.old, .expr, [(false, 1, false, false)]), (.new, .expr, [(false, 1, false, false)])]),
+  (157, 4, [(.old, .unmodelled, [(false, 99, false, false)]), (.new, .expr, [(false, 0, false, false)]), (.new, .unmodelled, [(false, 99, false, false)])]),
+  (158, 1, [(.old, .unmodelled, [(false, 99, false, false), (false, 99, false, false)]), (.new, .expr, [(false, 16, false, false), (false, 0, false, false)])]),
+  (159, 5, [(.old, .expr, [(true, 1, false, false)]), (.new, .expr, [(true, 16, true, false)]), (.new, .expr, [(true, 16, true, false), (false, 0, false, false)]), (.new, .unmodelled, [(true, 99, false, false), (false, 99, false, false)]), (.new, .unmodelled, [(true, 99, false, false), (false, 99, false, false), (false, 99, false, false)])]),
+  (160, 1, []),
+  (161, 4, [(.old, .expr, []), (.new, .expr, [])]),
+  (162, 5, [(.old, .unmodelled, [(true, 99, false, false), (false, 99, false, false)]), (.new, .expr, [(true, 16, false, false)]), (.old, .expr, [(false, 1, false, false)])]),
+  (163, 3, [(.old, .expr, []), (.new, .expr, []), (.old, .expr, [(false, 0, false, false)]), (.new, .unmodelled, [(false, 99, false, false)]), (.new, .expr, [(false, 1, false, false)])]),
+  (164, 2, [(.old, .expr, [(true, 16, true, false), (true, 0, false, false)]), (.new, .expr, [(true, 16, false, false), (true, 0, false, false)])]),
+  (165, 4, [(.old, .unmodelled, [(false, 99, false, false), (false, 99, false, false)]), (.new, .unmodelled, [(false, 99, false, false), (false, 99, false, false)])]),
+  (166, 2, [(.old, .expr, [(true, 16, false, false), (false, 1, false, false)]), (.new, .expr, [(true, 0, false, false)]), (.old, .expr, [(true, 16, false, false), (false, 0, false, false)])]),
+  (167, 8, [(.old, .expr, [(false, 1, false, false)]), (.new, .expr, [])]),
+  (168, 4, [(.old, .expr, []), (.new, .expr, []), (.old, .expr, [(false, 0, false, false)])]),
+  (169, 4, [(.old, .expr, [(true, 0, false, false)]), (.new, .expr, [(true, 7, false, false)])]),
+  (170, 1, [(.old, .expr, [(false, 16, false, false), (false, 0, false, false)]), (.new, .unmodelled, [(false, 99, false, false), (false, 99, false, false)])]),
+  (171, 2, [(.old, .expr, [(true, 1, false, false)]), (.new, .expr, [(true, 7, false, false), (true, 7, false, false)])]),
+  (172, 1, [(.old, .unmodelled, [(false, 99, false, false)]), (.new, .unmodelled, [(false, 99, false, false)])]),
+  (173, 3, [(.old, .expr, [(false, 0, false, false)]), (.new, .expr, [(false, 1, false, false)]), (.old, .expr, [(true, 1, false, false)]), (.new, .expr, [(false, 0, false, false)])]),
+  (174, 16, [(.old, .expr, []), (.new, .expr, []), (.old, .expr, [(false, 0, false, false)]), (.new, .expr, [(false, 0, false, false)]), (.old, .expr, [(true, 16, false, false), (false, 1, false, false)]), (.new, .expr, [(true, 16, false, false), (false, 0, false, false)])]),
+  (175, 20, [(.old, .assign, [(false, 16, false, false)]), (.new, .assign, [(false, 16, false, false)]), (.new, .expr, [(false, 1, false, false)]), (.old, .unmodelled, [(false, 99, false, false)]), (.new, .unmodelled, [(false, 99, false, false)])]),
+  (176, 1, [(.old, .unmodelled, [(false, 99, false, false), (false, 99, false, false)]), (.new, .expr, [(false, 1, false, false)])]),
+  (177, 2, [(.old, .unmodelled, [(false, 99, false, false)]), (.new, .expr, []), (.old, .expr, [])]),
+  (178, 6, [(.old, .unmodelled, []), (.new, .unmodelled, []), (.new, .expr, []), (.old, .unmodelled, [(false, 99, false, false)])]),
+  (179, 6, [(.old, .unmodelled, []), (.new, .expr, []), (.old, .expr, [(true, 1, false, false)]), (.new, .expr, [(true, 0, false, false)]), (.new, .expr, [(true, 16, true, false), (true, 0, false, false)]), (.old, .expr, [(false, 1, false, false)]), (.new, .expr, [(false, 1, false, false)])]),
+  (180, 2, [(.old, .assign, []), (.new, .expr, [])]),
+  (181, 2, [(.old, .expr, [(true, 16, true, false)]), (.new, .expr, [(true, 16, true, false)]), (.old, .expr, [(true, 16, true, false), (true, 0, false, false)]), (.new, .expr, [(true, 16, true, false), (true, 0, false, false)])]),
+  (182, 1, [(.old, .unmodelled, [(false, 99, false, false), (true, 99, false, false), (true, 99, false, false)]), (.new, .assign, [(false, 16, false, false), (true, 16, false, false), (true, 0, false, false)])]),
+  (183, 1, [(.old, .expr, [(true, 3, false, true)]), (.new, .expr, [(true, 0, false, false)])]),
+  (184, 2, []),
+  (185, 1, [(.old, .expr, [(true, 16, true, false)]), (.new, .expr, [(true, 1, false, false)])]),
+  (186, 1, [(.old, .expr, [(true, 1, false, false)]), (.new, .expr, [(true, 16, true, false), (false, 0, false, false)])]),
+  (187, 1, [(.old, .expr, [(true, 1, false, false)]), (.new, .expr, [(true, 16, true, false)])]),
+  (188, 4, [(.old, .expr, [(true, 1, false, false)]), (.new, .assign, [(true, 16, false, false), (true, 16, true, false), (true, 0, false, false)]), (.new, .expr, [(true, 16, true, false), (true, 0, false, false)])]),
+  (189, 3, [(.old, .unmodelled, [(false, 99, false, false), (false, 99, false, false)]), (.new, .unmodelled, [(false, 99, false, false)])]),
+  (190, 1, [(.old, .expr, [(true, 1, false, false)]), (.new, .unmodelled, [(false, 99, false, false)])]),
+  (191, 2, [(.old, .expr, [(true, 1, false, false)]), (.new, .expr, [(true, 0, false, false)])]),
+  (192, 4, [(.old, .expr, [(true, 1, false, false)]), (.new, .expr, [(true, 0, false, false)]), (.new, .expr, [(true, 0, false, false), (true, 1, false, false)])])
+-- END classified
+]
+
+/-- **Every message of every check is classified.** The regenerated table has exactly the checks, the message
+    counts and the fragment classes of `classified`: a check that gains a message, a `stringify(x)` that becomes
+    `str(x)`, a fragment that no longer parses (`unparsed`), an operand that moves from an argument position (level
+    0) to the operand of `not` (5) or the receiver of `.attr` (16) — each changes `genSummary`. -/
+theorem gen_classified : (genSummary == classified) = true := by decide +kernel
+
+/-- the demands recorded in the summary are the model's `reqs` of the fragment -/
+theorem gen_reqs_eq (g : GenFrag) : g.reqs = (fragOf g).map reqsF := by
+  simp only [GenFrag.reqs, fragOf]
+  cases g.frag <;> simp [reqsF2_eq]
+
+/-! ### The proposed replacement parses -/
+
+/-- every fragment of the table that has a tree is well-formed, and where the harness claimed so its text IS the
+    reference text of that tree -/
+def genSound : Bool :=
+  genTable.all (fun c => c.frags.all (fun g => match g.frag with
+    | some F => wfF2 F && (!g.exact || decide (render (prFrag2 F) = g.text))
+    | none => !g.exact))
+
+theorem gen_sound : genSound = true := by decide +kernel
+
+/-- a replacement built only from literal text and quoted fragments is never `unparsed` (CPython accepts it with
+    names in the holes), and unless it is one of the forms the model has no tree for (`unmodelled`: generator
+    expressions, statement lists, decorators …) it has a tree and — when it has holes at all — its text is exactly
+    the reference text of that tree (a hole-free literal such as FURB161's `(x).bit_count()` may carry redundant
+    parentheses) -/
+def closedNewCovered : Bool :=
+  genTable.all (fun c => c.frags.all (fun g => !(g.role == .new && closed g) ||
+    (g.form != .unparsed && (g.form == .unmodelled || (g.frag.isSome && (g.exact || g.holes.isEmpty))))))
+
+theorem closed_new_covered : closedNewCovered = true := by decide +kernel
+
+theorem gen_wf {code : Nat} {g : GenFrag} (hg : InTable code g) (F : Frag) (hF : fragOf g = some F) : wfF F = true := by
+  obtain ⟨c, hc, _, hg⟩ := hg
+  have h := List.all_eq_true.mp (List.all_eq_true.mp gen_sound c hc) g hg
+  simp only [fragOf] at hF
+  simp only [hF, Bool.and_eq_true, wfF2_eq] at h
+  exact h.1
+
+/-- the text of an exact row is the reference text of its tree, character for character (holes as `{i}`) -/
+theorem gen_text_exact {code : Nat} {g : GenFrag} (hg : InTable code g) (F : Frag) (hF : fragOf g = some F)
+    (he : g.exact = true) : render (prFrag F) = g.text := by
+  obtain ⟨c, hc, _, hg⟩ := hg
+  have h := List.all_eq_true.mp (List.all_eq_true.mp gen_sound c hc) g hg
+  simp only [fragOf] at hF
+  simp only [hF, he, Bool.and_eq_true, Bool.not_true, Bool.false_or, decide_eq_true_eq, prFrag2_eq] at h
+  exact h.2
+
+/-- **The proposed replacement parses (second sentence of the property).** Take any fragment of any message of any
+    check (`old` or `new`; expression, assignment, loop head or `in` tail) that the table gives a tree. If the text
+    put into each hole derives at the level that hole's position requires (and what lands left of `=` / after `for`
+    is a target), the whole fragment is derived by Python's grammar, as the fragment's tree over the operands. No
+    bound on the operands. -/
+theorem replacement_parses {code : Nat} {g : GenFrag} (hg : InTable code g) (F : Frag) (hF : fragOf g = some F)
+    (f : Nat → Toks) (σ : Nat → Node) (h : ∀ r ∈ reqsF F, Meets f σ r)
+    (ht : ∀ t, F.target? = some t → isTargetN (fillN σ t) = true) :
+    DerFrag (fillT f (prFrag F)) (fillF σ F) :=
+  fragment_in_form F f σ (gen_wf hg F hF) h ht
+
+/-- **… with refurb's own printer in the holes.** When every operand is safe and binds at least as tightly as its
+    hole requires (`meetsB`), the text the check builds with `stringify` parses as the fragment over the user's
+    operands. -/
+theorem replacement_parses_refurb {code : Nat} {g : GenFrag} (hg : InTable code g) (F : Frag) (hF : fragOf g = some F)
+    (σ : Nat → Node) (h : ∀ r ∈ reqsF F, meetsB r (σ r.hole) = true)
+    (ht : ∀ t, F.target? = some t → isTargetN (fillN σ t) = true) :
+    DerFrag (fillT (fun i => stringify (desugar (σ i))) (prFrag F)) (fillF σ F) :=
+  replacement_parses hg F hF _ σ (fun r hr => meets_of_meetsB σ r (h r hr)) ht
+
+/-- **Full statement for replacements (false of the current code).** Whatever well-formed operands a check finds,
+    the replacement it builds from quoted fragments denotes the replacement's tree over those operands. -/
+def ReplacementFaithful : Prop :=
+  ∀ code g, InTable code g → g.role = .new → closed g = true → ∀ F, fragOf g = some F →
+    ∀ σ : Nat → Node, (∀ i, wf (σ i) = true) → (∀ t, F.target? = some t → isTargetN (fillN σ t) = true) →
+    DerFrag (fillT (fun i => stringify (desugar (σ i))) (prFrag F)) (fillF σ F)
+
+private def sumAB : Node := .op .add na nb
+/-- `e.copy()` -/
+def copyOf (e : Node) : Node := .call (.member e ['c', 'o', 'p', 'y']) []
+
+private def isCopyShape : Option Node → Bool
+  | some (.call (.member (.other 0) a) []) => a == ['c', 'o', 'p', 'y']
+  | _ => false
+
+theorem isCopyShape_eq {o : Option Node} (h : isCopyShape o = true) : o = some (copyOf (.other 0)) := by
+  unfold isCopyShape at h
+  split at h
+  · simp at h; simp [copyOf, h]
+  · simp at h
+
+/-- the row of FURB145's replacement `{0}.copy()` (one hole, filled by `stringify`) is in the regenerated table -/
+private def has145 : Bool :=
+  genTable.any (fun c => c.code == 145 && c.frags.any (fun g => g.role == .new && g.form == .expr &&
+    g.holes == [(0, true)] && isCopyShape g.shape))
+
+theorem has145_true : has145 = true := by decide +kernel
+
+/-- FURB145 proposes `{0}.copy()`, the hole filled by `stringify` -/
+theorem furb145_row : ∃ g, InTable 145 g ∧ g.role = .new ∧ closed g = true ∧ fragOf g = some (.expr (copyOf (.other 0))) := by
+  have h := has145_true
+  simp only [has145, List.any_eq_true, Bool.and_eq_true, beq_iff_eq] at h
+  obtain ⟨c, hc, hcode, g, hg, ⟨⟨hr, hf⟩, hh⟩, hs⟩ := h
+  refine ⟨g, ⟨c, hc, hcode, hg⟩, hr, by simp [closed, hh], ?_⟩
+  simp [fragOf, GenFrag.frag, hf, isCopyShape_eq hs]
+
+/-- an expression fragment is derived as an expression -/
+theorem DerFrag.expr_inv {ts : Toks} {e : Node} (h : DerFrag ts (.expr e)) : Der 1 ts e := by
+  generalize hF : Frag.expr e = F at h
+  cases h with
+  | expr hd => cases hF; exact hd
+  | assign _ _ _ => cases hF
+  | forIn _ _ _ => cases hF
+  | inTail _ => cases hF
+
+/-- **Refutation witness (the recorded lost-parentheses finding): the replacement denotes another tree.** For
+    `(a + b)[:]` FURB145 proposes the text `a + b.copy()`: Python's grammar derives it as `a + (b.copy())`, which is
+    not the tree `(a + b).copy()` the message stands for. Unconditional. -/
+theorem replacement_other_tree :
+    ∃ code g, InTable code g ∧ g.role = .new ∧ closed g = true ∧ ∃ s, fragOf g = some (.expr s) ∧
+      ∃ σ : Nat → Node, (∀ i, wf (σ i) = true) ∧
+        ∃ e', Der 1 (fillT (fun i => stringify (desugar (σ i))) (prFrag (.expr s))) e' ∧ e' ≠ fillN σ s := by
+  obtain ⟨g, hg, hr, hc, hF⟩ := furb145_row
+  refine ⟨145, g, hg, hr, hc, _, hF, fun _ => sumAB, ?_, .op .add na (copyOf nb), ?_, ?_⟩
+  · intro _; simp [sumAB, wf, na, nb, isName, isIdent, isIdentStart, keywords]
+  · have hw : wf (.op .add na (copyOf nb)) = true := by
+      simp [copyOf, wf, wfArgs, argsOrdered, na, nb, isName, isIdent, isIdentStart, isIdentChar, keywords]
+    have he : fillT (fun _ => stringify (desugar sumAB)) (prFrag (.expr (copyOf (.other 0))))
+        = ppRef (.op .add na (copyOf nb)) := by
+      rw [← prFrag2_eq, ppRef, ← pr2_eq]
+      decide +kernel
+    rw [he]; exact pp_faithful _ hw
+  · simp [fillN, fillNA, copyOf, sumAB]
+
+/-- … so, as soon as a text denotes at most one tree (CPython's parser is a function), the full statement fails:
+    the guard of `replacement_parses_refurb` cannot be dropped. Together with `replacement_parses_refurb` this pair
+    is the formal face of the recorded finding C02-lost-parens at the level of the checks' messages. -/
+theorem replacement_refuted (hu : Unambiguous) : ¬ ReplacementFaithful := by
+  intro hf
+  obtain ⟨code, g, hg, hr, hc, s, hF, σ, hw, e', hd, hne⟩ := replacement_other_tree
+  have := (hf code g hg hr hc (.expr s) hF σ hw (by intro t ht; simp [Frag.target?] at ht)).expr_inv
+  exact hne (hu _ _ _ hd this)
+
+/-- `{0} or {1}` -/
+def orShape : Node := .op .or_ (.other 0) (.other 1)
+
+private def isOrShape : Option Node → Bool
+  | some (.op .or_ (.other 0) (.other 1)) => true
+  | _ => false
+
+theorem isOrShape_eq {o : Option Node} (h : isOrShape o = true) : o = some orShape := by
+  unfold isOrShape at h
+  split at h
+  · rfl
+  · simp at h
+
+/-- the row of FURB110's replacement `{0} or {1}` (both holes filled by `stringify`) is in the regenerated table -/
+private def has110 : Bool :=
+  genTable.any (fun c => c.code == 110 && c.frags.any (fun g => g.role == .new && g.form == .expr &&
+    g.holes == [(0, true), (1, true)] && isOrShape g.shape))
+
+theorem has110_true : has110 = true := by decide +kernel
+
+/-- FURB110 proposes `{0} or {1}`, both holes filled by `stringify` -/
+theorem furb110_row : ∃ g, InTable 110 g ∧ g.role = .new ∧ closed g = true ∧ fragOf g = some (.expr orShape) := by
+  have h := has110_true
+  simp only [has110, List.any_eq_true, Bool.and_eq_true, beq_iff_eq] at h
+  obtain ⟨c, hc, hcode, g, hg, ⟨⟨hr, hf⟩, hh⟩, hs⟩ := h
+  refine ⟨g, ⟨c, hc, hcode, hg⟩, hr, by simp [closed, hh], ?_⟩
+  simp [fragOf, GenFrag.frag, hf, isOrShape_eq hs, orShape]
+
+private def nq : Node := .name ['q', 'q']
+private def walWB : Node := .walrus (.name ['w', 'w']) nb
+
+/-- **Refutation witness: the replacement does not parse at all.** For `qq if qq else (ww := b)` FURB110 proposes
+    the text `qq or ww := b`: no tree whatever is derived from it as an expression (one `:=`, no bracket, no comma —
+    `not_der_of_wal`). This is the "unparsable text" case of the recorded finding C02-lost-parens. Unconditional. -/
+theorem replacement_unparsable :
+    ∃ code g, InTable code g ∧ g.role = .new ∧ closed g = true ∧ ∃ s, fragOf g = some (.expr s) ∧
+      ∃ σ : Nat → Node, (∀ i, wf (σ i) = true) ∧
+        ∀ e', ¬ Der 1 (fillT (fun i => stringify (desugar (σ i))) (prFrag (.expr s))) e' := by
+  obtain ⟨g, hg, hr, hc, hF⟩ := furb110_row
+  refine ⟨110, g, hg, hr, hc, _, hF, fun i => if i = 0 then nq else walWB, ?_, ?_⟩
+  · intro i
+    by_cases h : i = 0 <;> simp [h, nq, walWB, nb, wf, isName, isIdent, isIdentStart, isIdentChar, keywords]
+  · refine not_der_of_wal (by omega) ?_
+    rw [← prFrag2_eq]
+    decide +kernel
+
+/-- **The full statement fails, without any assumption on the grammar**: there is a check, a replacement built only
+    from quoted fragments and well-formed operands for which the text refurb proposes is not Python. -/
+theorem replacement_refuted_unparsable : ¬ ReplacementFaithful := by
+  intro hf
+  obtain ⟨code, g, hg, hr, hc, s, hF, σ, hw, hno⟩ := replacement_unparsable
+  exact hno _ (hf code g hg hr hc (.expr s) hF σ hw (by intro t ht; simp [Frag.target?] at ht)).expr_inv
+
+/-! ### Non-vacuity of the statements about fragments -/
+
+/-- the hypotheses of `fragment_in_form` / `replacement_parses_refurb` are met by FURB188's replacement
+    `{0} = {0}.removesuffix({1})` on `a.b = a.b.removesuffix("x")` … -/
+example : ∃ (F : Frag) (σ : Nat → Node), wfF F = true ∧ (∀ r ∈ reqsF F, meetsB r (σ r.hole) = true) ∧
+    (∀ t, F.target? = some t → isTargetN (fillN σ t) = true) ∧ reqsF F ≠ [] :=
+  ⟨.assign (.other 0) (T.meth (.other 0) "removesuffix" [.other 1]),
+    fun i => if i = 0 then .member na ['b'] else .str ['x'],
+    by simp [wfF, wfT, T.meth, T.call, T.att, fillN, fillNA, wf, wfArgs, argsOrdered, dummy, isName, isIdent, isIdentStart,
+      isIdentChar, keywords],
+    by simp [reqsF, reqs, reqsA, T.meth, T.call, T.att, meetsB, wf, safe, na, isName, isIdent, isIdentStart, keywords,
+      Node.prec, isIntLit, pr, startsWithBrace, wrap],
+    by intro t ht; simp [Frag.target?] at ht; subst ht; simp [fillN, isTargetN],
+    by simp [reqsF, reqs]⟩
+
+/-- … and refused for FURB145 on `(a + b)[:]`: the receiver of `.copy` must be a primary -/
+example : ∃ g, InTable 145 g ∧ ∃ F, fragOf g = some F ∧ ∃ r ∈ reqsF F, meetsB r sumAB = false := by
+  obtain ⟨g, hg, _, _, hF⟩ := furb145_row
+  exact ⟨g, hg, _, hF, ⟨0, 16, true, false⟩, by simp [reqsF, reqs, reqsA, copyOf], by simp [meetsB, sumAB, Node.prec, BinOp.prec]⟩
+
+/-- `gen_fragment_classified` applies to a row: FURB145's replacement is known to the committed tables -/
+example : ∃ t ∈ committed, codeOf t.check = 145 ∧ roleOf t.role = .new := by decide +kernel
 
 end RefurbVerif.C02
